@@ -48,7 +48,7 @@ def norm_lit(s: str) -> str:
     return s.replace(" ", "")
 
 
-def _newargs_in(ctx, fn: FuncInfo, e: ast.AST, depth: int = 3) -> list[Effect]:
+def _newargs_in(ctx, fn: FuncInfo, e: ast.AST, depth: int = 6) -> list[Effect]:
     """NewArg(...) constructions reachable from expression e (list literal, local, self-helper returning a list)."""
     out: list[Effect] = []
     if depth <= 0:
@@ -61,6 +61,12 @@ def _newargs_in(ctx, fn: FuncInfo, e: ast.AST, depth: int = 3) -> list[Effect]:
             if isinstance(n, ast.Call) and last_attr(n.func) in ("append", "extend") and isinstance(n.func, ast.Attribute) and unparse(n.func.value) == e.id and n.args:
                 out += _newargs_in(ctx, fn, n.args[0], depth - 1)
         return out
+    if isinstance(e, (ast.List, ast.Tuple)):
+        # `[secure, httponly, samesite_lax]`: locals bound to NewArg(...) before the list is put together
+        for el in e.elts:
+            inner = el.value if isinstance(el, ast.Starred) else el
+            if isinstance(inner, ast.Name):
+                out += _newargs_in(ctx, fn, inner, depth - 1)
     for c in ast.walk(e):
         if isinstance(c, ast.Call) and (last_attr(c.func) == "NewArg"):
             kw = {k.arg: k.value for k in c.keywords}
@@ -112,6 +118,23 @@ def extract_effects(ctx, tm, fn: FuncInfo, depth: int = 2) -> tuple[list[Effect]
         elif la == "update_arg_target" and len(c.args) >= 2:
             a = r.expand(c.args[1])
             lists = [a] if isinstance(a, (ast.List, ast.Tuple)) else []
+            if isinstance(a, ast.Call) and isinstance(a.func, ast.Attribute) and isinstance(a.func.value, ast.Name) and a.func.value.id == "self":
+                # the new argument list is chosen by a helper of the class: each of its answers is one path's list
+                th = tm.effective(tm.cls_q, a.func.attr)
+                if th is not None and not th.qname.startswith("codemodder.codemods."):
+                    for rn in walk_no_nested(th.node):
+                        if isinstance(rn, ast.Return) and rn.value is not None:
+                            rv = ctx.resolver(th).expand(rn.value) if isinstance(rn.value, ast.Name) else rn.value
+                            if isinstance(rv, ast.Call) and last_attr(rv.func) == "replace_args" and len(rv.args) >= 2:
+                                effects += _newargs_in(ctx, th, rv.args[1])
+                            elif isinstance(rv, (ast.List, ast.Tuple)) and not any(isinstance(x, ast.Starred) for x in rv.elts):
+                                tmpls = []
+                                for el in rv.elts:
+                                    if isinstance(el, ast.Call) and last_attr(el.func) == "make_new_arg" and el.args:
+                                        tmpls += eval_templates(ctx, th, el.args[0])
+                                    else:
+                                        tmpls.append(HOLE)
+                                effects.append(Effect("ReplaceArgs", str(len(rv.elts)), ",".join(tmpls), True, th.loc(rn)))
             if isinstance(a, ast.Name):
                 # re-assigned local: every list literal assigned to it is one path's argument list
                 for n in walk_no_nested(fn.node):
